@@ -53,7 +53,7 @@ theorem C06_offset (i : Input) (P : Program) (hwf : wf i = true) (hm : model i =
     (hls : ∀ L ∈ ls, L ∈ P.lookups) (b m : String) (c : Option Nat) (d : Int × Int)
     (h : attach P ls b m c = some d) : d ∈ candidates i b m c := by
   obtain ⟨al, hal, rfl⟩ := model_ok hm
-  exact offset_sound (alwf_of_ok hwf hal) hls h
+  exact offset_sound (alwf_of_ok (wf_wf0 hwf) hal) hls h
 
 /-- **C06_candidate**: when several anchor classes could attach the pair, the attachment chosen is one of the
     source-defined candidates (the statement of C06_offset for the complete lookup list). -/
@@ -87,9 +87,10 @@ theorem C06_ligature (i : Input) (P : Program) (hwf : wf i = true) (hm : model i
 theorem C06_complete (i : Input) (P : Program) (hwf : wf i = true) (hm : model i = .ok P) (b m : String) (c : Option Nat)
     (he : eligible i b m c = true) : (attach P P.lookups b m c).isSome = true := by
   obtain ⟨al, hal, rfl⟩ := model_ok hm
-  have w := alwf_of_ok hwf hal
+  have w := alwf_of_ok (wf_wf0 hwf) hal
   have cv := alcov_of_ok hal
-  obtain ⟨_, _, hcover⟩ := wf_iff i hwf
+  have nl : NoLib i := wf_nolib hwf
+  obtain ⟨_, _, hcover⟩ := wf_iff i (wf_wf0 hwf)
   unfold eligible at he
   cases hfb : findGlyph i b with
   | none => rw [hfb] at he; simp at he
@@ -109,24 +110,28 @@ theorem C06_complete (i : Input) (P : Program) (hwf : wf i = true) (hm : model i
         simp only [Bool.and_eq_true, any_eq_true] at hpair
         obtain ⟨hpk, sb, hsb, hmatch⟩ := hpair
         obtain ⟨hn, _⟩ := markKey_some hmk
-        obtain ⟨am, ham, hmm, hmkey⟩ := na_of_src_mark cv hgm (by rw [hgmn]; exact hincm) hsm hn hpk
-        obtain ⟨ab, hab, hnb, hbkey, hbnum⟩ := na_of_src_base cv hgb (by rw [hgbn]; exact hincb) hsb hpk c hmatch
+        obtain ⟨am, ham, hmm, hmkey⟩ := na_of_src_mark cv nl hgm (by rw [hgmn]; exact hincm) hsm hn hpk
+        obtain ⟨ab, hab, hnb, hbkey, hbnum⟩ := na_of_src_base cv nl hgb (by rw [hgbn]; exact hincb) hsb hpk c hmatch
         rw [hgmn] at ham
         rw [hgbn] at hab
-        have p : Pair al b m ab am := ⟨hab, ham, hnb, hmm, by rw [hmkey, hbkey]⟩
+        obtain ⟨asm0, hasm0, ham0⟩ := ham
+        obtain ⟨asb0, hasb0, hab0⟩ := hab
+        have hplb : ab.ctx = none := noctx w nl hasb0 hab0
+        have p : Pair al b m ab am :=
+          ⟨⟨asb0, hasb0, hab0⟩, ⟨asm0, hasm0, ham0⟩, hnb, hmm, noctx w nl hasm0 ham0, by rw [hmkey, hbkey]⟩
         obtain ⟨fB, fM, inc, mf, hinc, hmf, rB, rL, rM⟩ := route al ab (hcover gb hgb |> fun h => by rw [hgbn] at h; exact h)
         cases c with
         | none =>
           simp only [Option.map_none] at hbnum
           simp only [Bool.or_eq_true] at hcond
           by_cases hmg : b ∈ mgOf i al
-          · obtain ⟨L, hL, hs⟩ := mkmk_attach w p hokm hbnum hmg fM inc mf hinc hmf
+          · obtain ⟨L, hL, hs⟩ := mkmk_attach w p hokm hplb hbnum hmg fM inc mf hinc hmf
             exact attach_isSome_of_mem (rM L hL) hs
           · have hbase : baseOK i b = true := by
               rcases hcond with h | h
-              · exact absurd (mg_of_isMarkGlyph w cv hfb h) hmg
+              · exact absurd (mg_of_isMarkGlyph w cv nl hfb h) hmg
               · exact h
-            obtain ⟨L, hL, hs⟩ := base_attach w p hokm hbnum hmg hbase fB inc mf hinc hmf
+            obtain ⟨L, hL, hs⟩ := base_attach w p hokm hplb hbnum hmg hbase fB inc mf hinc hmf
             exact attach_isSome_of_mem (rB L hL) hs
         | some j =>
           simp only [Option.map_some] at hbnum
@@ -134,10 +139,10 @@ theorem C06_complete (i : Input) (P : Program) (hwf : wf i = true) (hm : model i
           obtain ⟨⟨hnmk, hlig⟩, hnull⟩ := hcond
           have hmg : b ∉ mgOf i al := by
             intro h
-            rw [isMarkGlyph_of_mg w hfb h] at hnmk; simp at hnmk
+            rw [isMarkGlyph_of_mg w nl hfb h] at hnmk; simp at hnmk
           have hnonull : ∀ as, (b, as) ∈ al → ∀ a ∈ as, a.number = some (j + 1) → a.key ≠ "" := by
             intro as has a ha hnum hkey
-            have hsa := w.shape _ has a ha
+            have hsa := w.shape _ has a ha (noctx w nl has ha)
             have hnmark : a.isMark = false := by
               cases hmk' : a.isMark with
               | false => rfl
@@ -152,7 +157,7 @@ theorem C06_complete (i : Input) (P : Program) (hwf : wf i = true) (hm : model i
             have : gb.anchors.any (fun a => isLigName [] (j + 1) a.name.toList) = true :=
               any_eq_true.mpr ⟨s, hs, by rw [hsn]; simpa using hl⟩
             rw [this] at hnull; simp at hnull
-          obtain ⟨L, hL, hs⟩ := lig_attach w p hokm j hbnum hmg hlig hnonull fB inc mf hinc hmf
+          obtain ⟨L, hL, hs⟩ := lig_attach w p hokm hplb j hbnum hmg hlig hnonull fB inc mf hinc hmf
           exact attach_isSome_of_mem (rL L hL) hs
 
 
@@ -215,20 +220,25 @@ theorem mapE_error_iff {α β ε} {f : α → Except ε β} {l : List α} :
         rw [hm] at this; simp at this
 
 theorem namedAnchor_error_iff (q : Q) (s : SrcAnchor) :
-    (∃ e, namedAnchor q s = .error e) ↔ s.name ≠ "" ∧ ∃ e, parseAnchor s.name.toList = .error e := by
+    (∃ e, namedAnchor q s = .error e) ↔
+      s.name ≠ "" ∧ (s.idNoLib = true ∨ ∃ e, parseAnchor s.name.toList = .error e) := by
   unfold namedAnchor
   by_cases hne : s.name = ""
   · simp [hne]
   · rw [if_neg hne]
-    cases hp : parseAnchor s.name.toList with
-    | error e' => simp [hne]
-    | ok p =>
-      simp only [hne, ne_eq, not_false_eq_true, reduceCtorEq, exists_false, and_false, iff_false, not_exists]
-      intro e
-      split <;> simp
+    by_cases hid : s.idNoLib = true
+    · simp [hid, hne]
+    · rw [if_neg hid]
+      cases hp : parseAnchor s.name.toList with
+      | error e' => simp [hne]
+      | ok p =>
+        simp only [hne, hid, ne_eq, not_false_eq_true, reduceCtorEq, exists_false, or_false, and_false, iff_false,
+          not_exists]
+        intro e
+        split <;> simp
 
 theorem glyphAnchors_error_iff (q : Q) (srcs : List SrcAnchor) :
-    (∃ e, glyphAnchors q srcs = .error e) ↔ ∃ s ∈ srcs, s.name ≠ "" ∧ ∃ e, parseAnchor s.name.toList = .error e := by
+    (∃ e, glyphAnchors q srcs = .error e) ↔ ∃ s ∈ srcs, s.name ≠ "" ∧ (s.idNoLib = true ∨ ∃ e, parseAnchor s.name.toList = .error e) := by
   have key : (∃ e, glyphAnchors q srcs = .error e) ↔ ∃ e, mapE (namedAnchor q) srcs = .error e := by
     unfold glyphAnchors
     cases mapE (namedAnchor q) srcs with
@@ -243,7 +253,8 @@ theorem glyphAnchors_error_iff (q : Q) (srcs : List SrcAnchor) :
     passes the GDEF filter carries a non-empty anchor name that parseAnchorName / NamedAnchor reject
     (`_`, `_x_1`, `x_0`, `*`, …: see parse_numbered_mark_error, parse_bare_prefix_error, parse_zero_error). -/
 theorem C06_error (i : Input) : (∃ e, model i = .error e) ↔
-    ∃ g ∈ i.glyphs, included i g.name = true ∧ ∃ s ∈ g.anchors, s.name ≠ "" ∧ ∃ e, parseAnchor s.name.toList = .error e := by
+    ∃ g ∈ i.glyphs, included i g.name = true ∧ ∃ s ∈ g.anchors, s.name ≠ "" ∧
+      (s.idNoLib = true ∨ ∃ e, parseAnchor s.name.toList = .error e) := by
   have hmodel : (∃ e, model i = .error e) ↔ ∃ e, anchorLists i = .error e := by
     unfold model
     cases anchorLists i with
@@ -348,13 +359,16 @@ theorem C06_parse_shape (cs : List Char) (p : Parsed) (h : parseAnchor cs = .ok 
 
 /-! ### non-vacuity: a concrete font meets the hypotheses, and the theorems pin its attachments down -/
 
+/-- an anchor without object-lib data -/
+def sa (n : String) (x y : Q) : SrcAnchor := { name := n, x := x, y := y }
+
 /-- base `a` (top, bottom), ligature `f_i` (top_1, top_2 with a fractional y), marks `acutecomb` (_top, and `top` for
     mark-to-mark) and `gravecomb` (_top at x = 5.5) -/
 def exampleFont : Input :=
-  { glyphs := [⟨"a", [⟨"top", 100, 500⟩, ⟨"bottom", 100, 0⟩]⟩,
-               ⟨"f_i", [⟨"top_1", 100, 500⟩, ⟨"top_2", 300, (1021 : Q) / 2⟩]⟩,
-               ⟨"acutecomb", [⟨"_top", 10, 20⟩, ⟨"top", 10, 200⟩]⟩,
-               ⟨"gravecomb", [⟨"_top", (11 : Q) / 2, 20⟩]⟩],
+  { glyphs := [⟨"a", [sa "top" (100) (500), sa "bottom" (100) (0)]⟩,
+               ⟨"f_i", [sa "top_1" (100) (500), sa "top_2" (300) ((1021 : Q) / 2)]⟩,
+               ⟨"acutecomb", [sa "_top" (10) (20), sa "top" (10) (200)]⟩,
+               ⟨"gravecomb", [sa "_top" ((11 : Q) / 2) (20)]⟩],
     gdef := none, quant := 1, group := true, abvm := ["a"], notAbvm := ["f_i", "acutecomb", "gravecomb"] }
 
 example : wf exampleFont = true := by decide
@@ -365,11 +379,13 @@ theorem exampleFont_ok : ∃ P, model exampleFont = .ok P := by
   | ok P => exact ⟨P, rfl⟩
   | error e =>
     exfalso
-    obtain ⟨g, hg, _, s, hs, _, e', he⟩ := (C06_error exampleFont).mp ⟨e, h⟩
-    have hall : exampleFont.glyphs.all (fun g => g.anchors.all (fun s => (parseAnchor s.name.toList).toBool)) = true := by
-      decide
+    obtain ⟨g, hg, _, s, hs, _, hbad⟩ := (C06_error exampleFont).mp ⟨e, h⟩
+    have hall : exampleFont.glyphs.all (fun g => g.anchors.all (fun s =>
+        !s.idNoLib && (parseAnchor s.name.toList).toBool)) = true := by decide
     have := all_eq_true.mp (all_eq_true.mp hall g hg) s hs
-    rw [he] at this; simp [Except.toBool] at this
+    rcases hbad with hid | ⟨e', he⟩
+    · rw [hid] at this; simp at this
+    · rw [he] at this; simp [Except.toBool] at this
 
 /-- C06_complete + C06_candidate + C06_sound determine the attachments of the example: base (through abvm), ligature
     component 2 (511 − 20 = 491 after rounding 510.5 up and 5.5 up to 6), mark-to-mark, and nothing for a pair without
